@@ -1,6 +1,7 @@
 package main
 
 import (
+	"time"
 	"encoding/json"
 	"fmt"
 	"io/ioutil"
@@ -363,6 +364,9 @@ func profileFor(prop string, r *sim.Rand, i int, quick bool) sim.Profile {
 			p.RestartPct = 6
 		}
 		p.EdgeAddresses = i%4 == 2
+		if (prop == "C07" || prop == "C06") && i%8 == 2 && p.CustomPos {
+			p.Pos.UnstakingTime = time.Duration([]int64{0, 1}[i/8%2]) * time.Second // no (or almost no) unstaking period
+		}
 		if (prop == "C07" || prop == "C09") && i%8 == 6 {
 			p.FatalEvPct = 25 // some evidence the application cannot handle (unknown key, too old, tombstoned, unstaked offender)
 			p.EvidencePct = 14
